@@ -688,8 +688,12 @@ extern "C" int LLVMFuzzerTestOneInput(const std::uint8_t* data, std::size_t size
   std::vector<Tok> toks;
   lex(s, toks);
   // replays give the raw verdict: no exclusion
-  static const bool exclude = std::getenv("VERIF_FUZZ_NO_EXCLUSION") == nullptr;
-  if (exclude && (plusMinusClass(toks) || plusMinusText(s))) {
+  // ... and a class is only excluded while its key is in the known list ($VERIF_KNOWN, set by the driver)
+  static const bool raw = std::getenv("VERIF_FUZZ_NO_EXCLUSION") != nullptr;
+  static const std::string knownList = std::string(",") + (std::getenv("VERIF_KNOWN") != nullptr ? std::getenv("VERIF_KNOWN") : "") + ",";
+  static const bool excludePlusMinus = !raw && knownList.find(",C13.plus_unary_minus.crash,") != std::string::npos;
+  static const bool exclude = !raw && knownList.find(",C13.diff.copy.crash,") != std::string::npos;
+  if (excludePlusMinus && (plusMinusClass(toks) || plusMinusText(s))) {
     sc.tag("excluded_known.C13.plus_unary_minus.crash");
     return 0;
   }
